@@ -6,12 +6,23 @@ Import ListNotations.
 From AnySync Require Export Model.Deletion.
 Open Scope N_scope.
 
+(* one observation of a real settings object after a step at its replica: ids of the changes it holds; what the
+   tree reported (0 init / restart, 1 append, 2 rebuild, 3 nothing); the tree root (0 = the true root, else the id
+   of the snapshot change); ids iterated after the start point of the listener's Build (LastIteratedId for append,
+   the root otherwise) and after the root; then, sorted: DeletedIds of the incrementally kept state, of a
+   from-scratch Build on the same tree, and the accumulated ids handed to DeletionManager.UpdateState *)
+Record sobs := mkSObs { ob_held : list N; ob_mode : N; ob_root : N; ob_after : list N; ob_all : list N;
+                        ob_state : list N; ob_scratch : list N; ob_seen : list N }.
+
 Inductive case :=
 (* a history over the ids [univ], from the empty space: after every op its output and the observation *)
 | CHist (univ : list N) (ops : list op) (tr : list (out * list obs))
 (* settings log: all changes; observed per build call: (root change index+1 or 0 = true root, ids iterated after
    the start change, incremental?, observed DeletedIds sorted); held = ids of held changes at that time *)
-| CSettings (changes : list schange) (builds : list (list N * (N * list N * bool * list N))).
+| CSettings (changes : list schange) (builds : list (list N * (N * list N * bool * list N)))
+(* branching settings log driven through the real settings objects of several replicas: all changes; per replica
+   the observations after every step at that replica *)
+| CSObj (changes : list schange) (reps : list (list sobs)).
 
 Fixpoint trace_eqb (a b : list (out * list obs)) : bool :=
   match a, b with
@@ -40,16 +51,41 @@ Definition settings_spec (cs : list schange) (bs : list (list N * (N * list N * 
   forallb (fun b => let '(held, (_, _, _, observed)) := b in
                     nlist_eqb (sunion_all (pick_sc cs held)) observed) bs.
 
+Definition smode_of (m : N) : smode :=
+  if m =? 0 then SInit else if m =? 1 then SAppend else if m =? 2 then SRebuild else SNothing.
+Definition root_of (cs : list schange) (root : N) : option schange :=
+  if root =? 0 then None else find_sc cs root.
+
+(* model of one replica: the settings object's kept state and what it handed to the deletion manager are carried
+   from step to step (sobj_step); the from-scratch Build is sderive_scratch over the whole tree *)
+Fixpoint sobj_model (cs : list schange) (o : sobj) (l : list sobs) : bool :=
+  match l with
+  | [] => true
+  | b :: r =>
+      let o' := sobj_step o (mkSEv (smode_of (ob_mode b)) (root_of cs (ob_root b)) (pick_sc cs (ob_after b))) in
+      nlist_eqb (nsort (so_state o')) (ob_state b) && nlist_eqb (nsort (so_seen o')) (ob_seen b)
+      && nlist_eqb (nsort (sderive_scratch (root_of cs (ob_root b)) (pick_sc cs (ob_all b)))) (ob_scratch b)
+      && sobj_model cs o' r
+  end.
+
+(* property: after EVERY step the incrementally kept set = the from-scratch set = the ids handed to the deletion
+   manager = the union of the contents of the changes the replica holds - in whatever order and batching they came *)
+Definition sobj_spec (cs : list schange) (l : list sobs) : bool :=
+  forallb (fun b => let u := sunion_all (pick_sc cs (ob_held b)) in
+                    nlist_eqb u (ob_state b) && nlist_eqb u (ob_scratch b) && nlist_eqb u (ob_seen b)) l.
+
 Definition model_ok (c : case) : bool :=
   match c with
   | CHist univ ops tr => trace_eqb (trace true univ ops init) tr
   | CSettings cs bs => settings_model cs [] bs
+  | CSObj cs reps => forallb (sobj_model cs sobj_init) reps
   end.
 
 Definition spec_ok (c : case) : bool :=
   match c with
   | CHist univ ops tr => spec_C15 univ ops tr
   | CSettings cs bs => settings_spec cs bs
+  | CSObj cs reps => forallb (sobj_spec cs) reps
   end.
 
 Fixpoint check_from (i : N) (l : list case) : list (N * N) :=
